@@ -323,15 +323,18 @@ func (m c09) run(c *Ctx, s *c09scn, r *RNG) {
 		}
 		seen := map[string]bool{}
 		seqs := map[uint][]string{}
+		// like a caller paginating in a loop: the same rule list, ID list and filter value for every page
+		sharedRules := append([]string{}, rules...)
+		sharedIDs := append([]string{}, s.IDs...)
+		var sharedFilter *jsonapi.Filter
+		if s.Filter != nil {
+			sharedFilter = s.Filter.build()
+		}
 		for _, num := range nums {
 			c.Count("evaluations")
 			var page jsonapi.Collection
-			var filter *jsonapi.Filter
-			if s.Filter != nil {
-				filter = s.Filter.build()
-			}
 			if pi := Guard(func() {
-				page = jsonapi.Range(col, append([]string{}, s.IDs...), filter, append([]string{}, rules...), s.Size, num)
+				page = jsonapi.Range(col, sharedIDs, sharedFilter, sharedRules, s.Size, num)
 			}); pi != nil {
 				cls := "plain"
 				for _, ru := range rules {
